@@ -176,8 +176,9 @@ Definition w_stale_tomb : list nat := [0;0; 1;1;1;1;1;1; 2; 3;3;3;3;3; 0;0;0; 4]
 
 (* ---- correspondence: acceptance of a forced run ------------------------------------------ *)
 (* observation: (thread, kind, a, qlen): kind 0 = the request of the thread did its Save /
-   Delete, 1 = collected a objects, 2 = dequeued, 3 = wrote the batch (all remaining objects),
-   4 = flush done; qlen = CountTreasuresWaitingForWriter afterwards (1000 = not sampled) *)
+   Delete, 1 = collected a objects, 2 = dequeued, 5 = collected and dequeued a objects (the hook
+   at the entry of chroniclerV2.Write), 3 = wrote the batch (all remaining objects), 4 = flush
+   done; qlen = CountTreasuresWaitingForWriter afterwards (1000 = not sampled) *)
 Definition rawobs := (N * N * N * N)%type.
 Definition Ob (t kind a qlen : N) : rawobs := (t, kind, a, qlen).
 
@@ -208,6 +209,18 @@ Definition obs_step (s : st) (o : rawobs) : option st :=
   | 3%N, FWrite _ _ => chk (steps_while_write 64 s tn)
   | 4%N, FWrite [] _ => match tstep false s tn with Some s' => chk s' | None => None end
   | 4%N, FColl => match queue s with [] => tstep false s tn | _ => None end
+  | 5%N, FColl =>      (* chroniclerV2.Write entered with a objects: collected and dequeued *)
+      match queue s with
+      | [] => if N.eqb a 0 then match tstep false s tn with Some s' => chk s' | None => None end else None
+      | _ =>
+          match tstep false s tn with
+          | Some s1 =>
+              match tstep false s1 tn with
+              | Some s2 => if N.eqb (N.of_nat (length (batch (pcs s2 tn)))) a then chk s2 else None
+              | None => None end
+          | None => None end
+      end
+  | 3%N, Done | 4%N, Done => chk s      (* the flush had found nothing to write *)
   | _, _ => None
   end.
 
